@@ -81,8 +81,15 @@ func Classify(s *Segment) (*Seg, RejectCategory) {
 		out.Kind, out.Binds = KAll, []string{ps[0].Name}
 		proper := len(es) == 1 && len(ps) <= 2
 		if len(ps) == 2 {
+			// a capture limit is a decimal number; leading zeros are still decimal ("08" is eight), 0 means no limit
 			n, err := strconv.Atoi(ps[1].Value)
-			if ps[1].Name != "capture" || ps[1].IsRegex || err != nil || n <= 0 || strconv.Itoa(n) != ps[1].Value {
+			allDigits := ps[1].Value != ""
+			for _, ch := range ps[1].Value {
+				if ch < '0' || ch > '9' {
+					allDigits = false
+				}
+			}
+			if ps[1].Name != "capture" || ps[1].IsRegex || err != nil || !allDigits {
 				proper = false
 			} else {
 				out.Capture = n
